@@ -24,7 +24,8 @@ Headline theorems (proved in the `Lemmas/*Rounding.lean` files of this namespace
   - `xtx_error` (relative on the diagonal), `matmul_error_infnorm`
         |Ĉ − op(A)op(B)| ≤ γ_l·|op(A)||op(B)|,   ‖Ĉ − op(A)op(B)‖_∞ ≤ γ_l·‖op(A)‖_∞‖op(B)‖_∞
   - `matvec_error`, `matTvec_error` (the products `X·β`, `Xᵀy`, `G⁻¹·Xᵀy`, `R⁻¹·r` of C06 / C14 / C13),
-    `dotMM_error` (the Matrix·Matrix methods of the `Dot` trait)
+    `dotMM_error` (the Matrix·Matrix methods of the `Dot` trait); `dotMV_error`, `dotVM_error`, `dotVV_error`
+    (this file: the Matrix·Vector, Vector·Matrix and Vector·Vector methods)
 * C04 log-domain reductions (`Lemmas/LogRounding.lean`)
   - `shiftedExpSum_near`  Ŝ ∈ [c·S, S/c], c = e^{−uD}(1−uf)(1−u)ⁿ
   - `logsumexp_error`, `logmeanexp_error`, `shifted_logsumexp_error` (arbitrary shift)
@@ -208,6 +209,71 @@ alias f64_logistic_note := stdmodel_logistic_note
 /-- deprecated alias of `stdmodel_acf_note` (the `f64_` prefix wrongly suggested a statement about IEEE binary64; kept only
 until the `REQUIRED_THEOREMS` wiring is updated) -/
 alias f64_acf_note := stdmodel_acf_note
+
+/-! ### the Vector methods of the `Dot` trait -/
+
+section dotvec
+open Cv.DotT Cv.C05 Cv.C05W
+
+/-- the Matrix·Matrix method a `Matrix.method(Vector)` call is wired to (`C05.dotMV_eq`) -/
+def mvInner : Meth → Meth
+  | .dot => .dot | .dotT => .dot | .tDot => .tDot | .tDotT => .tDot
+/-- the Matrix·Matrix method a `Vector.method(Matrix)` call is wired to (`C05.dotVM_eq`) -/
+def vmInner : Meth → Meth
+  | .dot => .dot | .tDot => .dot | .dotT => .dotT | .tDotT => .dotT
+
+/-- **Forward error of the Vector·Vector `Dot` methods** (all four names call `dot`): `γ_n` -/
+theorem dotVV_error (hid : M.Idem) (meth : Meth) (x y : List (Fl M)) (hxy : x.length = y.length)
+    (h : (x.length : ℝ) * M.u < 1) :
+    ∃ r, dotVV meth x y = some r ∧
+      |r.val - (prods x y).sum| ≤ M.γ x.length * ((prods x y).map (|·|)).sum := by
+  refine ⟨dot8 x y, ?_, dot8_error hid x y hxy h⟩
+  rw [dotVV_eq]; simp [dot?, hxy]
+
+/-- **Forward error of the Matrix·Vector `Dot` methods**: the vector is promoted to the `n × 1` column and the
+method is the Matrix·Matrix method `mvInner meth` (`C05.dotMV_eq`), hence the bound of `dotMM_error` with
+`γ_l`, `l` the inner dimension -/
+theorem dotMV_error (hid : M.Idem) (meth : Meth) (s : Mat (Fl M)) (v : List (Fl M)) (hs : s.WF)
+    (hsr : 0 < s.nrows) (hv : 0 < v.length)
+    (hin : (if flagA (mvInner meth) then s.nrows else s.ncols) =
+      (if flagB (mvInner meth) then 1 else v.length))
+    (h : ((if flagA (mvInner meth) then s.nrows else s.ncols : Nat) : ℝ) * M.u < 1) :
+    ∃ d r, dotMV meth s v = some d ∧ dotMM (mvInner meth) s ⟨v, v.length, 1⟩ = some r ∧ d = r.data ∧
+      r.nrows = (if flagA (mvInner meth) then s.ncols else s.nrows) ∧ r.WF ∧
+      ∀ i j, i < r.nrows → j < r.ncols →
+        |(r.get i j).val - exactCell s.data v s.ncols 1 (flagA (mvInner meth)) (flagB (mvInner meth))
+            (if flagA (mvInner meth) then s.nrows else s.ncols) i j| ≤
+          M.γ (if flagA (mvInner meth) then s.nrows else s.ncols) *
+            absCell s.data v s.ncols 1 (flagA (mvInner meth)) (flagB (mvInner meth))
+              (if flagA (mvInner meth) then s.nrows else s.ncols) i j := by
+  obtain ⟨r, h1, h2, _, h4, h5⟩ := dotMM_error hid (mvInner meth) s ⟨v, v.length, 1⟩ hs
+    (by show v.length = v.length * 1; simp) hsr hv hin h
+  refine ⟨r.data, r, ?_, h1, rfl, h2, h4, h5⟩
+  rw [dotMV_eq]
+  cases meth <;> (simp only [mvInner] at h1; rw [h1]; rfl)
+
+/-- **Forward error of the Vector·Matrix `Dot` methods**: the vector is promoted to the `1 × n` row, the method
+is `vmInner meth` (`C05.dotVM_eq`) -/
+theorem dotVM_error (hid : M.Idem) (meth : Meth) (v : List (Fl M)) (o : Mat (Fl M)) (ho : o.WF)
+    (hor : 0 < o.nrows)
+    (hin : (if flagA (vmInner meth) then 1 else v.length) =
+      (if flagB (vmInner meth) then o.ncols else o.nrows))
+    (h : ((if flagA (vmInner meth) then 1 else v.length : Nat) : ℝ) * M.u < 1) :
+    ∃ d r, dotVM meth v o = some d ∧ dotMM (vmInner meth) ⟨v, 1, v.length⟩ o = some r ∧ d = r.data ∧
+      r.ncols = (if flagB (vmInner meth) then o.nrows else o.ncols) ∧ r.WF ∧
+      ∀ i j, i < r.nrows → j < r.ncols →
+        |(r.get i j).val - exactCell v o.data v.length o.ncols (flagA (vmInner meth)) (flagB (vmInner meth))
+            (if flagA (vmInner meth) then 1 else v.length) i j| ≤
+          M.γ (if flagA (vmInner meth) then 1 else v.length) *
+            absCell v o.data v.length o.ncols (flagA (vmInner meth)) (flagB (vmInner meth))
+              (if flagA (vmInner meth) then 1 else v.length) i j := by
+  obtain ⟨r, h1, _, h3, h4, h5⟩ := dotMM_error hid (vmInner meth) ⟨v, 1, v.length⟩ o
+    (by show v.length = 1 * v.length; simp) ho (by norm_num) hor hin h
+  refine ⟨r.data, r, ?_, h1, rfl, h3, h4, h5⟩
+  rw [dotVM_eq]
+  cases meth <;> (simp only [vmInner] at h1; rw [h1]; rfl)
+
+end dotvec
 
 /-! ### Non-vacuity: concrete models and concrete inputs -/
 
@@ -530,6 +596,33 @@ example : ∃ (M : FlModel) (_ : ExpLnStd M), M.u = 1 / 2 ^ 53 ∧ uF M = 1 / 2 
 end Examples
 
 end Cv.Rounding3
+
+/-! ### Non-vacuity of the Vector `Dot` methods -/
+
+namespace Cv.Rounding3.ExamplesDot
+open Cv Cv.FlModel Cv.Rounding Cv.C05L Cv.DotT Cv.C05 Cv.C05W
+open Cv.Rounding.Examples (Mbump Mbump_u x12 y11)
+open Cv.Rounding3.Examples (A22b v2b)
+
+/-- `dotVV_error`, `dotMV_error`, `dotVM_error` in the idempotent model (`3 ↦ 3.75`, `u = 1/4`): the hypotheses hold -/
+example : ∃ r, dotVV .tDot x12 y11 = some r ∧ |r.val - (prods x12 y11).sum| ≤ 3 := by
+  obtain ⟨r, h1, h2⟩ := dotVV_error (FlModel.bump_idem _ _ _ _) .tDot x12 y11 rfl (by rw [Mbump_u]; norm_num)
+  refine ⟨r, h1, h2.trans ?_⟩
+  have : (x12 : List (Fl Mbump)).length = 2 := rfl
+  rw [this]
+  simp only [FlModel.γ, Mbump_u, prods, x12, y11, List.zipWith_cons_cons, List.zipWith_nil_right,
+    List.map_cons, List.map_nil, List.sum_cons, List.sum_nil]
+  norm_num
+example : ∃ d, dotMV .dot (⟨A22b, 2, 2⟩ : Mat (Fl Mbump)) v2b = some d := by
+  obtain ⟨d, _, h1, _⟩ := dotMV_error (FlModel.bump_idem _ _ _ _) .dot (⟨A22b, 2, 2⟩ : Mat (Fl Mbump)) v2b rfl
+    (by norm_num) (by simp) (by simp [mvInner, flagA, flagB]) (by rw [Mbump_u]; simp [mvInner, flagA]; norm_num)
+  exact ⟨d, h1⟩
+example : ∃ d, dotVM .dotT v2b (⟨A22b, 2, 2⟩ : Mat (Fl Mbump)) = some d := by
+  obtain ⟨d, _, h1, _⟩ := dotVM_error (FlModel.bump_idem _ _ _ _) .dotT v2b (⟨A22b, 2, 2⟩ : Mat (Fl Mbump)) rfl
+    (by norm_num) (by simp [vmInner, flagA, flagB]) (by rw [Mbump_u]; simp [vmInner, flagA]; norm_num)
+  exact ⟨d, h1⟩
+
+end Cv.Rounding3.ExamplesDot
 
 /-! ### Non-vacuity of the underflow-aware variants (`Cv.Rounding3U`) -/
 
